@@ -136,17 +136,30 @@ def read_known():
     return known, fixed
 
 
+NEEDS_BIN = {'C15', 'C16', 'C17'}
+
+
 def run_property(pid, tier='quick', configs=None, repo=None):
-    """run all rules of one property; returns (obs, meta, ctxs)"""
+    """run all rules of one property; returns (obs, module, ctxs)"""
     mod = importlib.import_module('props.%s' % pid.lower())
-    configs = configs or (['default'] if tier == 'quick' else getattr(mod, 'THOROUGH_CONFIGS', ['default', 'nodefault', 'tests']))
+    if configs is None:
+        configs = ['default'] if tier == 'quick' else ['default', 'nodefault', 'tests']
+        if pid in NEEDS_BIN:
+            # the library-only build has no binary, and rustc's test harness replaces the binary's `main`
+            configs = ['default']
     all_obs = []
     ctxs = []
     for cfg in configs:
         ctx = Ctx(cfg, repo)
-        if cfg != 'default' and not getattr(mod, 'CONFIG_INDEPENDENT', True):
-            continue
-        mod.run(ctx, tier) if 'tier' in mod.run.__code__.co_varnames[:mod.run.__code__.co_argcount] else mod.run(ctx)
+        if cfg == 'tests':
+            # analyse the cfg(test) builds (test modules themselves are excluded by the rules)
+            if 'lib-test' in ctx.crates:
+                ctx.lib = ctx.crates['lib-test']
+                ctx.crates['lib'] = ctx.lib
+            if 'bin-test' in ctx.crates:
+                ctx.bin = ctx.crates['bin-test']
+                ctx.crates['bin'] = ctx.bin
+        mod.run(ctx)
         for o in ctx.obs:
             o['config'] = cfg
         all_obs.extend(ctx.obs)
@@ -176,9 +189,22 @@ def main(argv):
         rp = write_replay(pid, 0, {'rule': 'extract', 'key': 'extract-failed', 'detail': str(e)[-2000:]})
         print('VIOLATION property=%s replay=%s' % (pid, rp))
         return 1
-    if tier == 'thorough' and hasattr(mod, 'thorough_extra'):
-        extra = mod.thorough_extra(ctxs)
-        obs.extend(extra or [])
+    selftest_summary = None
+    if tier == 'thorough' and not a.keys and not a.replay and not a.repo:
+        # (c) configuration agreement: a rule instance must get the same verdict in every configuration
+        by_key = {}
+        for o in obs:
+            by_key.setdefault((o['key'], o['kind']), set()).add(o['status'])
+        for (k, kind), sts in sorted(by_key.items()):
+            if len(sts) > 1 and kind == 'N':
+                print('NOTE: %s has different verdicts across build configurations: %s' % (k, sorted(sts)))
+        # (d) rule self-validation: replay the corpus entries of this property on scratch copies
+        import selftest
+        selftest_summary = selftest.run_for(pid, jobs=int(os.environ.get('VERIF_JOBS', '8')))
+        for line in selftest_summary['lines']:
+            print('  selftest ' + line)
+        if selftest_summary['failed']:
+            print('CHECKER-SELFTEST: %d corpus expectation(s) of %s not met on this tree (a defect of the checker, not a property violation)' % (selftest_summary['failed'], pid))
     known, fixed = read_known()
     viol = [o for o in obs if o.violated]
     # de-duplicate by key across configurations
@@ -207,7 +233,7 @@ def main(argv):
             new.append(o)
     wall = time.time() - t0
     if not a.no_evidence:
-        write_evidence(pid, tier, seed, obs, viol, listed, mod, ctxs, wall)
+        write_evidence(pid, tier, seed, obs, viol, listed, mod, ctxs, time.time() - t0, selftest_summary)
     for o in listed:
         print('KNOWN-FINDING: property=%s %s — %s [%s]' % (pid, o['key'], known[(pid, o['key'])], o['site']))
     n_ok = sum(1 for o in obs if o['status'] in ('ok', 'proved'))
@@ -232,7 +258,7 @@ def write_replay(pid, i, o):
     return p
 
 
-def write_evidence(pid, tier, seed, obs, viol, listed, mod, ctxs, wall):
+def write_evidence(pid, tier, seed, obs, viol, listed, mod, ctxs, wall, selftest_summary=None):
     os.makedirs(EVID, exist_ok=True)
     n_ob = [o for o in obs if o['kind'] == 'N']
     s_ob = [o for o in obs if o['kind'] == 'S']
@@ -280,6 +306,9 @@ def write_evidence(pid, tier, seed, obs, viol, listed, mod, ctxs, wall):
         'wall_s': round(wall, 3),
         'violations': len(viol),
     }
+    if selftest_summary is not None:
+        ev['coverage']['selftest'] = {k: v for k, v in selftest_summary.items() if k != 'lines'}
+        ev['coverage']['selftest']['entries'] = selftest_summary['lines']
     json.dump(ev, open(os.path.join(EVID, '%s.json' % pid), 'w'), indent=1, sort_keys=False)
 
 
